@@ -204,20 +204,23 @@ def check_dyn(case):
     problems = []
     judge_contexts(ctxs, w, items, combo, wl, localnames, problems, "body")
     nctx = len(ctxs)
-    # second observation (async with only): suspended inside the last item's __aexit__, i.e. that context is exiting
+    # further observations (async with only): suspended inside the __aexit__ of the last item, then of the one before it
+    # (the later items have exited by then), ... - each time that context is exiting and must keep ITS line and target
     if case["kind"] == "a" and not problems:
         try:
-            co.send(None)
-            inner = co.cr_await
-            nxt = getattr(inner, "cr_frame", None)
-            with warnings.catch_warnings(record=True) as w2:
-                warnings.simplefilter("always")
-                ctxs2 = lowlevel.contexts_active_in_frame(co.cr_frame, co, nxt)
-            localnames = dict(co.cr_frame.f_locals)
-            if not ctxs2 or not ctxs2[-1].is_exiting:
-                problems.append("exiting: last context is not marked exiting: %r" % (ctxs2,))
-            judge_contexts(ctxs2, w2, items, combo, wl, localnames, problems, "exiting")
-            nctx += len(ctxs2)
+            for j in range(len(items), 0, -1):
+                co.send(None)
+                inner = co.cr_await
+                nxt = getattr(inner, "cr_frame", None)
+                with warnings.catch_warnings(record=True) as w2:
+                    warnings.simplefilter("always")
+                    ctxs2 = lowlevel.contexts_active_in_frame(co.cr_frame, co, nxt)
+                localnames = dict(co.cr_frame.f_locals)
+                tag = "exiting" if j == len(items) else "exiting item %d of %d" % (j, len(items))
+                if not ctxs2 or not ctxs2[-1].is_exiting:
+                    problems.append("%s: last context is not marked exiting: %r" % (tag, ctxs2))
+                judge_contexts(ctxs2, w2, items[:j], combo[:j], wl[:j], localnames, problems, tag)
+                nctx += len(ctxs2)
         except StopIteration:
             pass
     try:
